@@ -28,6 +28,15 @@ func (st *muState) of(s *Sim) *muState {
 	return st
 }
 
+// simFor picks the simulation an operation belongs to: the active one, or - for goroutines of
+// a run that is winding down after its driver returned - the simulation that last used the mutex.
+func (st *muState) simFor() *Sim {
+	if s := cur.Load(); s != nil {
+		return s
+	}
+	return st.owner
+}
+
 // Mutex replaces sync.Mutex in rewritten packages: under a simulation every
 // Lock is a scheduler decision, outside of one it is a plain sync.Mutex.
 type Mutex struct {
@@ -36,7 +45,7 @@ type Mutex struct {
 }
 
 func (m *Mutex) Lock() {
-	s := cur.Load()
+	s := m.st.simFor()
 	if s == nil {
 		m.nat.Lock()
 		return
@@ -45,7 +54,7 @@ func (m *Mutex) Lock() {
 }
 
 func (m *Mutex) TryLock() bool {
-	s := cur.Load()
+	s := m.st.simFor()
 	if s == nil {
 		return m.nat.TryLock()
 	}
@@ -63,7 +72,7 @@ func (m *Mutex) TryLock() bool {
 }
 
 func (m *Mutex) Unlock() {
-	s := cur.Load()
+	s := m.st.simFor()
 	if s == nil {
 		m.nat.Unlock()
 		return
@@ -88,7 +97,7 @@ type RWMutex struct {
 }
 
 func (m *RWMutex) Lock() {
-	s := cur.Load()
+	s := m.st.simFor()
 	if s == nil {
 		m.nat.Lock()
 		return
@@ -97,7 +106,7 @@ func (m *RWMutex) Lock() {
 }
 
 func (m *RWMutex) Unlock() {
-	s := cur.Load()
+	s := m.st.simFor()
 	if s == nil {
 		m.nat.Unlock()
 		return
@@ -114,7 +123,7 @@ func (m *RWMutex) Unlock() {
 }
 
 func (m *RWMutex) RLock() {
-	s := cur.Load()
+	s := m.st.simFor()
 	if s == nil {
 		m.nat.RLock()
 		return
@@ -123,7 +132,7 @@ func (m *RWMutex) RLock() {
 }
 
 func (m *RWMutex) RUnlock() {
-	s := cur.Load()
+	s := m.st.simFor()
 	if s == nil {
 		m.nat.RUnlock()
 		return
@@ -146,7 +155,7 @@ func (m *RWMutex) RUnlock() {
 }
 
 func (m *RWMutex) TryLock() bool {
-	s := cur.Load()
+	s := m.st.simFor()
 	if s == nil {
 		return m.nat.TryLock()
 	}
@@ -164,7 +173,7 @@ func (m *RWMutex) TryLock() bool {
 }
 
 func (m *RWMutex) TryRLock() bool {
-	s := cur.Load()
+	s := m.st.simFor()
 	if s == nil {
 		return m.nat.TryRLock()
 	}
